@@ -7,13 +7,14 @@ HARNESS = "c08"
 DRIVER = "c08"
 PROPS_MODULE = "OxyModel.Props.C08"
 AUDIT = "OxyModel/Audit/C08.lean"
-THEOREMS = ["C08.C08_target_roundtrip", "C08.C08_host", "C08.C08_hop_by_hop_removed", "C08.C08_end_to_end_preserved",
+THEOREMS = ["C08.C08_target_roundtrip", "C08.C08_target_roundtrip_absolute", "C08.C08_host", "C08.C08_hop_by_hop_removed", "C08.C08_end_to_end_preserved",
             "C08.C08_resp_hop_by_hop_removed_partial", "C08.C08_resp_standard_hop_removed", "C08.C08_resp_close_counterexample",
             "C08.C08_resp_end_to_end_preserved", "C08.C08_xfwd_survive", "C08.C08_xfwd_filled_iff_absent", "C08.C08_xff_appended"]
 RACE = False
 JOBS = 8
-RULE = ("scenario = one forward.New(pass) proxy behind a real net/http server, two raw loopback backends; every op is one raw HTTP/1.x "
-        "request (random valid RFC 3986 origin-form target, header set with hop-by-hop / Connection-named / forwarding / end-to-end "
+RULE = ("scenario = one forward.New(pass) proxy behind a real net/http server — directly, or behind a real roundrobin (Verbose), Rebalancer (debug) or "
+        "CircuitBreaker (Verbose) that installs the backend URL — and two raw loopback backends; every op is one raw HTTP/1.x "
+        "request (random valid RFC 3986 origin-form or absolute-form target, form-like queries with ';' '&' '+' and empty values, header set with hop-by-hop / Connection-named / forwarding / end-to-end "
         "headers, forged peer address form, TLS flag, Host form, chosen backend) plus a scripted backend response; non-trivial = a request "
         "that reached a backend whose target has a pct-escape or a query and whose header set has a Connection header or an upstream-supplied forwarding header")
 ASSUMPTIONS = [
@@ -22,7 +23,8 @@ ASSUMPTIONS = [
     "X-Forwarded-Server is always this proxy's host name (properties.jsonl C08 mechanism 2: 'server name always set'), also when an upstream proxy supplied one",
     "'supplied by an upstream proxy' is read as the code reads it: Header.Get non-empty (first value not the empty string)",
     "X-Real-Ip is the peer IP with an IPv6 zone stripped, X-Forwarded-For gets the peer IP as net.SplitHostPort returns it (zone kept); the monitor accepts either form in both places",
-    "request targets are ASCII; request bodies are Content-Length framed; response status is never 1xx; absolute-form and '*' targets are not modelled",
+    "request targets are ASCII; request bodies are Content-Length framed; response status is never 1xx; '*' and opaque targets, and absolute-form targets with userinfo or a bracketed IP literal as authority, are not modelled",
+    "with an absolute-form target the Go server ignores the Host header and uses the target's authority as req.Host (RFC 7230 5.4); the monitor's 'client Host' is that effective host",
     "known finding resp_connection_close: net/http's Transport deletes a backend Connection header that contains 'close' before ReverseProxy reads it (C08_resp_hop_by_hop_removed_partial / C08_resp_close_counterexample)",
 ]
 TRUSTED = ["raw loopback backend / client in /verif/harness/cmd/c08/fx (records and prints the bytes on the wire)"]
@@ -99,6 +101,12 @@ def gen_query(rng):
         return None
     if r < 0.42:
         return ""
+    if r < 0.6:
+        # form-like queries: ';' and '&' separators, '+', empty names and values
+        parts = []
+        for _ in range(rng.randint(1, 5)):
+            parts.append(rng.choice(["a=1", "b=2", "c=", "=d", "e", "", "x=+", "y=a+b", "z=%20", "q=%26", "k=v;w", "%zz=1", "n=%"]))
+        return rng.choice(["&", ";", "&", ";&"]).join(parts)
     s = []
     for _ in range(rng.randint(1, 12)):
         x = rng.random()
@@ -153,6 +161,12 @@ def gen_req(rng, resp_close=False):
     elif r < 0.09:
         path = path + rng.choice(["%zz", "%4", "%"])  # malformed escape: 400 from the server
     q = gen_query(rng)
+    if rng.random() < 0.12:
+        # absolute-form request line (RFC 7230 5.3.2): the caller's backend must still be used, path and query kept
+        if rng.random() < 0.25 and "%zz" not in path and not path.endswith("%") and not path.endswith("%4"):
+            path = ""
+        path = rng.choice(["http", "http", "https", "HTTP", "ws", "x+y-1.z"]) + "://" + rng.choice(
+            ["other.example", "Other.Example:8080", "o-t.h:", "10.9.8.7:81", "other", ""]) + path
     target = path if q is None else path + "?" + q
     v = 1 if rng.random() < 0.9 else 0
     host = rng.choice(HOSTS)
@@ -227,7 +241,7 @@ def gen_req(rng, resp_close=False):
 def gen(rng, tier):
     n_scen = {"quick": 900, "thorough": 6000, "search": 300}.get(tier, 900)
     for _ in range(n_scen):
-        lines = ["cfg pass=%d" % rng.randint(0, 1)]
+        lines = ["cfg pass=%d up=%s" % (rng.randint(0, 1), rng.choice(["none", "rr-verbose", "rb-debug", "cb-verbose"]))]
         for _ in range(rng.randint(8, 30)):
             lines.append(gen_req(rng))
         yield lines
@@ -237,6 +251,8 @@ def gen(rng, tier):
 
 PCHAR = r"(?:[A-Za-z0-9\-._~!$&'()*+,;=:@]|%[0-9A-Fa-f]{2})"
 VALID_TARGET = re.compile(r"^(?:/" + PCHAR + r"*)+(?:\?(?:" + PCHAR + r"|[/?%])*)?$")
+# absolute-form: scheme "://" reg-name [":" port] path-abempty ["?" query]; groups: authority, path, ?query
+VALID_ABS = re.compile(r"^[A-Za-z][A-Za-z0-9+.\-]*://([A-Za-z0-9.\-]*(?::[0-9]*)?)((?:/" + PCHAR + r"*)*)(\?(?:" + PCHAR + r"|[/?%])*)?$")
 
 
 def parse_op(line):
@@ -318,6 +334,17 @@ def monitor(ops, outs):
         po = parse_out(o)
         valid = bool(VALID_TARGET.match(target))
         host = "" if d.get("host") == "-" else unpe(d.get("host", ""))
+        want_target = target
+        mabs = VALID_ABS.match(target)
+        if mabs:
+            # the origin-form equivalent: path ("/" if empty) and query, byte for byte; the authority of an
+            # absolute-form target replaces the Host header (RFC 7230 5.4)
+            valid = True
+            want_target = (mabs.group(2) or "/") + (mabs.group(3) or "")
+        # whatever else the target contains: an absolute-form target's authority is the effective Host
+        mauth = re.match(r"^[A-Za-z][A-Za-z0-9+.\-]*://([^/?]*)", target)
+        if mauth and mauth.group(1) != "":
+            host = mauth.group(1)
         if po is None:
             bad.append("alive: line %d the proxy gave no response (%r)" % (i, o))
             continue
@@ -328,7 +355,7 @@ def monitor(ops, outs):
             continue
         H = hmap(d["h"])
         # -- request line, backend, host
-        if valid and unpe(sc.get("t", "")) != target:
+        if valid and unpe(sc.get("t", "")) != want_target:
             bad.append("target: line %d client sent %r, backend received %r" % (i, target, unpe(sc.get("t", ""))))
         if sc.get("p") != "HTTP/1.1":
             bad.append("proto: line %d backend saw %r" % (i, sc.get("p")))
@@ -442,13 +469,17 @@ def nontrivial(ops, outs):
 
 def describe(ops, outs, hist):
     for l, o in zip(ops, outs):
+        if l.startswith("cfg"):
+            hist["cfg:" + ([t for t in l.split() if t.startswith("up=")] or ["up=none"])[0]] += 1
         d = parse_op(l)
         if not d:
             continue
         hist["op:req"] += 1
         hist["status:" + o.split(" ")[0][:8]] += 1
         t = unpe(d.get("t", ""))
-        hist["target:" + ("valid" if VALID_TARGET.match(t) else "non-rfc")] += 1
+        hist["target:" + ("valid" if VALID_TARGET.match(t) else "absolute" if VALID_ABS.match(t) else "non-rfc")] += 1
+        if ";" in t.partition("?")[2]:
+            hist["query:semicolon"] += 1
         if "%" in t:
             hist["target:pct"] += 1
         if t.endswith("?"):
@@ -483,6 +514,7 @@ KNOWN_MATCHERS = {"resp_connection_close": _resp_close}
 MANIFEST = {
     "text": ("Proof: Lean 4 theorems over the model Fwd.serve / Fwd.relay of forward.New + the Director-mode path of httputil.ReverseProxy + net/url: "
              "C08_target_roundtrip (every valid RFC 3986 origin-form target, incl. pct-escapes, ';', '+', '//', dot segments, empty query, is sent byte-identical), "
+             "C08_target_roundtrip_absolute (absolute-form targets: path-or-'/' and query byte-identical, backend stays the caller's, authority becomes req.Host), "
              "C08_host, C08_hop_by_hop_removed / C08_end_to_end_preserved (header-map algebra, any header set, any Connection tokens), "
              "C08_xfwd_survive / C08_xfwd_filled_iff_absent / C08_xff_appended, and the response direction (C08_resp_*). "
              "The model is tied to the code by a differential run: real proxy behind a real net/http server, raw TCP client and raw recording backends."),
